@@ -324,7 +324,9 @@ func TestWriterReset(t *testing.T) {
 
 		// The same H2 on a fresh writer with the same Size().
 		prefer := 0
-		if mode != "putget" && !grown && cfg1.Ctor != "get" && cfg1.Reuse != "pool" {
+		if mode != "putget" && !grown && cfg1.Ctor != "get" && cfg1.Reuse == "" {
+			// (a previous life may have grown the buffer under DisableFlush:
+			// its length is then not the constructor's)
 			prefer = wh.RawLen(cfg1)
 		}
 		cands := wh.Twins(sizeAfter, side2, op2, ext2, noFlush2, prefer)
@@ -346,6 +348,9 @@ func TestWriterReset(t *testing.T) {
 			recT.FailAt, recT.Short = failAt, short
 			if reattach {
 				twinCfg.Ext = 0
+			}
+			if mode == "resetop" {
+				twinCfg.Extended = cfg1.Extended // ResetOp keeps the state
 			}
 			twin := wh.New(twinCfg, recT)
 			if reattach {
